@@ -29,7 +29,8 @@ def ff_project(rnd, n):
         files[f"{d}/__init__.py"] = relayout(f"def init_{d.replace('/', '_')}(a, b):\n    return not a == b\n", rnd.randint(0, 5))
     for i in range(n):
         body = [f"import os\nx{i} = set([{i}])\n", f"def f{i}(a, b):\n    if not a == b:\n        return {i}\n    return 0\n", f"import random\nv{i} = random.random()\n", f"y{i} = {i}\n",
-                f"t{i} = any([z > {i} for z in range(9)])\n", f"import requests\nr{i} = requests.get('u{i}', verify=False)\n", f"s{i} = f'plain {i}'\nif s{i} != '':\n    pass\n"][i % 7]
+                f"t{i} = any([z > {i} for z in range(9)])\n", f"import requests\nr{i} = requests.get('u{i}', verify=False)\n", f"s{i} = f'plain {i}'\nif s{i} != '':\n    pass\n",
+                f"import os\nimport sys\nimport json\nfrom collections import OrderedDict, defaultdict\nz{i} = {i}\n"][i % 8]      # several unused imports in one file: several change entries per changeset
         files[f"pkg{i % 3}/m{i:02d}.py"] = relayout(body, rnd.randint(0, 5))
     return files
 
